@@ -402,6 +402,13 @@ func runC02(r *fw.Runner) {
 						plan = append(plan, planEntry{typ, t.name, func(h *histCtx, s *opStep) {
 							before := s.Facts
 							t.mutate(h, s)
+							if !strings.Contains(t.name, "anchor") && h.r.Chance(1, 4) {
+								// the same tampering on an operation that is, in addition, anchored before its window opens: a forged
+								// operation is refused whatever else is the matter with it (no commitment advances on an unverified signature)
+								s.Spec.AnchorFrom, s.Spec.AnchorUntil = int64(s.Anchor.Time)+1000, 0
+								s.Facts.InWindow = false
+								c.Count("tampered-and-out-of-window", 1)
+							}
 							if s.Facts.ParseOK == before.ParseOK && s.Facts.SigOK == before.SigOK && s.Facts.DeltaBound == before.DeltaBound && s.Facts.SuffixMatch == before.SuffixMatch {
 								c.Count("tampered-accepted-expected", 1)
 							}
